@@ -87,6 +87,44 @@ def random_case(ctx: Ctx) -> dict[str, Any]:
     return {"batch": batch, "buffer": 0, "file_db": n_runs > 1, "runs": runs, "script": script}
 
 
+def large_case(ctx: Ctx) -> dict[str, Any]:
+    """scale: hundreds of spans, batches of 100-1000, so that one commit batch holds more than a hundred distinct ids.
+    Either a grown export delivered again in a second run (the earlier spans somewhere inside a large batch), or one
+    run with a few spans re-delivered late"""
+    r = ctx.rng
+    k = [0]
+
+    def span(eid: str, parent: str | None) -> dict[str, Any]:
+        k[0] += 1
+        return sl.ev(r.choice(["N0", "N1"]), f"j{k[0] % 7}", f"T{k[0]}", eid, r.randrange(1000), 1000 + r.randrange(1000),
+                     parent, app=f"a{k[0] % 5}")
+    if r.random() < 0.5:
+        n1, n2, n3 = r.choice([20, 50, 130]), r.choice([120, 200, 260]), r.choice([0, 30, 75])
+        first = [span(f"o{i}", None if i % 9 == 0 else f"o{i - 1}") for i in range(n1)]
+        again = [dict(e) for e in first]
+        if r.random() < 0.5:
+            r.shuffle(again)
+        second = ([span(f"n{i}", None if i % 11 == 0 else f"n{i - 1}") for i in range(n2)] + again
+                  + [span(f"m{i}", None) for i in range(n3)])
+        runs = [first, second]
+        ctx.tick("large_grown_export")
+    else:
+        n = r.choice([160, 320, 450])
+        stream = [span(f"s{i}", None if i % 13 == 0 else f"s{i - 1}") for i in range(n)]
+        for _ in range(r.choice([1, 2, 5])):
+            src = r.randrange(0, n // 2)
+            stream.insert(r.randrange(n // 2, len(stream) + 1), {**stream[src], "typ": "again"})
+        runs = [stream]
+        ctx.tick("large_late_redelivery")
+    batch = r.choice([40, 101, 150, 300, 500, 1000])
+    script: list[list[Any]] = []
+    for i, s in enumerate(runs):
+        if i:
+            script.append(["newrun"])
+        script += [["ingest", s], ["dump"]]
+    return {"batch": batch, "buffer": 0, "file_db": len(runs) > 1, "runs": runs, "script": script}
+
+
 def check(ctx: Ctx, cases: list[dict[str, Any]]) -> None:
     try:
         model = sl.run_model(cases)
@@ -156,7 +194,8 @@ def run(ctx: Ctx) -> None:
     ctx.cov["rule"] = (
         "streams over 3 ids up to renaming (every duplicate placement) of length <= 4 (thorough 6) x batch sizes "
         "1..n+1, each event with its own payload and a parent drawn from {none, '', stored id, absent id}; seeded "
-        "random streams (<= 25 events, 1-3 runs over one database file) x batch sizes {1,2,3,5,n,n+1,1000}. "
+        "random streams (<= 25 events, 1-3 runs over one database file) x batch sizes {1,2,3,5,n,n+1,1000}; large "
+        "streams (160-450 spans, a grown export delivered again or late re-deliveries) x batch sizes {40,101,150,300,500,1000}. "
         "non-trivial: at least one duplicate id and more events than the batch size"
     )
     cases: list[dict[str, Any]] = []
@@ -172,6 +211,8 @@ def run(ctx: Ctx) -> None:
     ctx.tick("corpus", len(cases))
     for _ in range(400 if ctx.tier == "quick" else 4000):
         cases.append(random_case(ctx))
+    for _ in range(12 if ctx.tier == "quick" else 120):
+        cases.append(large_case(ctx))
     cases += list(exhaustive(ctx))
     for i in range(0, len(cases), 2000):
         check(ctx, cases[i:i + 2000])
